@@ -64,6 +64,33 @@ def World.step (w : World) (i : Nat) (op : Op) : World :=
 def World.run (w : World) (ops : List (Nat × Op)) : World :=
   ops.foldl (fun w (i, op) => w.step i op) w
 
+/-! ## the host changes its own environment; runtimes are created at different times -/
+
+def nameOf (e : Bytes) : Option Bytes := (splitEnv e).map (·.1)
+
+/-- `os.Setenv(k, v)` as seen through `os.Environ()`: the entry of that name is replaced, else one is appended -/
+def hostSet (env : List Bytes) (k v : Bytes) : List Bytes :=
+  if env.any (fun e => nameOf e == some k) then env.map (fun e => if nameOf e == some k then k ++ 61 :: v else e)
+  else env ++ [k ++ 61 :: v]
+
+/-- `os.Unsetenv(k)` -/
+def hostDel (env : List Bytes) (k : Bytes) : List Bytes := env.filter (fun e => nameOf e != some k)
+
+inductive WOp where
+  | js (i : Nat) (op : Op)        -- a write / delete from JavaScript in runtime i
+  | hostSet (k v : Bytes)         -- the embedding program changes its environment
+  | hostDel (k : Bytes)
+  | newRuntime                    -- a new runtime requires the process module for the first time now
+  deriving Repr, Inhabited
+
+def World.stepW (w : World) : WOp → World
+  | .js i op => w.step i op
+  | .hostSet k v => { w with host := hostSet w.host k v }
+  | .hostDel k => { w with host := hostDel w.host k }
+  | .newRuntime => { w with rts := w.rts ++ [snapshot w.host] }
+
+def World.runW (w : World) (ops : List WOp) : World := ops.foldl World.stepW w
+
 /-! ## specification -/
 
 /-- the variable named `k` in a host environment: value of the *last* entry `k=…` (Go map semantics; names in
